@@ -23,6 +23,7 @@ import (
 type HarnessSpec struct {
 	Prop      string
 	Name      string
+	Pkg       string // package of the harness function when it is not pkg/zz_verif ("" = the module's package main for ".")
 	Tier      string // "" = both tiers, "thorough" = thorough only
 	MapOrder  bool
 	CrossPath []string
@@ -129,6 +130,11 @@ func inPkgOverlay() map[string]string {
 			return nil
 		}
 		rel, _ := filepath.Rel(root, p)
+		if strings.HasPrefix(rel, "main"+string(filepath.Separator)) {
+			// package main lives in the module root
+			m[filepath.Join(repoDir, filepath.Base(p))] = p
+			return nil
+		}
 		m[filepath.Join(repoDir, "pkg", rel)] = p
 		return nil
 	})
